@@ -144,7 +144,7 @@ def open_input_host(rng, tlib, kinds):
     return kind, opened, co, instance_circuit(tlib, kind, set(ins) - {opened}, co)
 
 
-def transform_sequence(rng, start=None):
+def transform_sequence(rng, start=None, fixed_steps=None):
     """random circuit of simulation primitives (or the given circuit); copy / pickle / eliminate in random order"""
     # half of the circuits get arbitrary node / line creation orders (forks before cells, a state element last)
     if start is None:
@@ -155,8 +155,9 @@ def transform_sequence(rng, start=None):
         desc = dict(desc, kind='sequence', circuit=cg.describe(c), steps=[])
     cur = c
     reordered = []
-    for _ in range(rng.randint(1, 4) if start is None else rng.randint(2, 4)):
-        step = rng.choice(['copy', 'pickle', 'eliminate'] if start is None else ['copy', 'pickle', 'eliminate', 'eliminate'])
+    for k in range(len(fixed_steps) if fixed_steps is not None else rng.randint(1, 4) if start is None else rng.randint(2, 4)):
+        step = fixed_steps[k] if fixed_steps is not None else \
+            rng.choice(['copy', 'pickle', 'eliminate'] if start is None else ['copy', 'pickle', 'eliminate', 'eliminate'])
         desc['steps'].append(step)
         if step == 'copy':
             nxt = cur.copy()
@@ -174,6 +175,10 @@ def transform_sequence(rng, start=None):
             if [x for x in stubs if x not in nxt.forks]:
                 return desc, f'{" -> ".join(desc["steps"])}: eliminate_1to1_forks() removed a fork without driver'
         # only fork elimination may be excused for reordering state elements (known finding D29); the function is still compared
+        from harness import circuit_edit as ce
+        inv = ce.invariant(nxt)       # every port still a node of the circuit, indices, pins, dictionaries, statistics
+        if inv:
+            return desc, f'{" -> ".join(desc["steps"])}: inconsistent circuit: {inv}'
         msg = same_function(cur, nxt, rng, ' -> '.join(desc['steps']), reordered if step == 'eliminate' else None)
         if msg:
             return desc, msg
@@ -184,6 +189,46 @@ def transform_sequence(rng, start=None):
         desc['class'] = 'eliminate-state-order'
         return desc, reordered[0]
     return desc, None
+
+
+def bench_style_circuit(rng):
+    """a circuit whose PORTS ARE FORKS (ISCAS-bench style, as every TechLib implementation circuit): statements in any order (use before
+    definition), INPUT / OUTPUT declarations at any position (also after all assignments, so that port forks get HIGH node indices),
+    outputs that are also read by one or several internal gates, buffer chains (many 1:1 forks to eliminate)"""
+    from kyupy import bench
+    chainy = rng.random() < 0.5        # long chains of single-reader gates, outputs at the end: more forks get eliminated than nodes follow a port fork
+    n_in, n_g = rng.randint(1, 3), rng.randint(5, 10) if chainy else rng.randint(2, 8)
+    ins = [f'i{k}' for k in range(n_in)]
+    sigs, stmts = list(ins), []
+    for g in range(n_g):
+        kind = rng.choice(['AND', 'OR', 'NAND', 'NOR', 'XOR', 'NOT', 'BUF', 'BUF', 'NOT', 'BUF'])
+        # mostly chains: the latest signal is read next (one reader per fork), sometimes one of the last few, sometimes any
+        pick = lambda: sigs[-1] if rng.random() < (0.85 if chainy else 0.5) else rng.choice(sigs[-3:] if rng.random() < 0.6 else sigs)
+        ops = [pick() for _ in range(1 if kind in ('NOT', 'BUF') else 2)]
+        stmts.append(f'g{g} = {kind}({", ".join(ops)})')
+        sigs.append(f'g{g}')
+    # outputs mostly near the end of the chain (and then usually read once more by the gate that follows)
+    pool = sigs[n_in:]
+    outs = []
+    for _ in range(rng.randint(1, min(3, n_g))):
+        x = rng.choice(pool[-2:] if chainy and rng.random() < 0.8 else pool[-3:] if rng.random() < 0.7 else pool)
+        if x not in outs:
+            outs.append(x)
+    if rng.random() < (0.2 if chainy else 0.5):
+        rng.shuffle(stmts)
+    decls = [f'INPUT({", ".join(ins)})'] if rng.random() < 0.5 else [f'INPUT({x})' for x in ins]
+    decls += [f'OUTPUT({", ".join(outs)})'] if rng.random() < 0.5 else [f'OUTPUT({x})' for x in outs]
+    mode = rng.choice(['first', 'last', 'last', 'mixed'])
+    if mode == 'first':
+        lines = decls + stmts
+    elif mode == 'last':
+        lines = stmts + decls
+    else:
+        lines = list(stmts)
+        for d in decls:
+            lines.insert(rng.randint(0, len(lines)), d)
+    text = '\n'.join(lines) + '\n'
+    return bench.parse(text), text
 
 
 def instance_circuit(tlib, kind, connected_ins, connected_outs):
@@ -635,6 +680,18 @@ def run(ck):
         ck.nontrivial(('s', i))
         if what:
             fails.append(('sequence:' + desc.get('class', 'function'), desc, what))
+    # the same sequences on circuits whose ports are forks with arbitrary node indices (bench style)
+    for i in range(ck.scale(150, 1500)):
+        desc = {'kind': 'sequence'}
+        try:
+            c, text = bench_style_circuit(rng)
+            desc, what = transform_sequence(rng, start=(c, {'bench': text}))
+        except Exception:
+            what = 'raises ' + traceback.format_exc()[-400:]
+        ck.count(1, 'copy/pickle/eliminate sequences on bench-style circuits (ports are forks, declarations anywhere)')
+        ck.nontrivial(('sb', i))
+        if what:
+            fails.append(('sequence-bench:' + desc.get('class', 'function'), desc, what))
     # the same sequences on RESOLVED circuits whose instance had an unconnected input pin (stub forks without driver, D38)
     n_stub = 0
     combs = {}
@@ -746,6 +803,12 @@ def replay(rp):
         if ce.invariant(host) is not None or any(n.kind in tl.cells for n in host.nodes):
             return True
         return rsc.replay_case(inp)
+    if inp.get('kind') == 'sequence' and 'circuit' in inp and inp.get('steps'):
+        try:
+            d, what = transform_sequence(random.Random(0), start=(cg.from_description(inp['circuit']), {}), fixed_steps=inp['steps'])
+        except Exception:
+            return True
+        return what is not None
     if inp.get('kind') == 'resolve':
         rng = random.Random(0)
         d, what = resolve_cell(inp['library'], getattr(techlib, inp['library']), inp['cell'], rng)
